@@ -73,6 +73,11 @@ class MemmappingExecutor(_ReusablePoolExecutor):
             # be re-assigned like that because it is referenced in various
             # places in the reducing machinery of the executor.
             _executor._temp_folder_manager = manager
+        else:
+            # The contexts registered from now on get their folder under the
+            # temp_folder of this call, not under the one the executor was
+            # created with.
+            _executor._temp_folder_manager._temp_folder_root = temp_folder
 
         if context_id is not None:
             # Only register the specified context once we know which manager
